@@ -7,7 +7,7 @@ for n in $names; do
   prop=$(python3 -c "import json;print(json.load(open('seeded/$n/meta.json'))['breaks_property'])")
   git -C /repo apply /verif/seeded/$n/patch.diff || { echo "$n: patch does not apply"; continue; }
   s=$(date +%s)
-  timeout 2400 ./check $prop --tier quick > /tmp/sr_$n.log 2>&1; rc=$?
+  timeout 1500 ./check $prop --tier quick --workers ${WORKERS:-16} > /tmp/sr_$n.log 2>&1; rc=$?
   git -C /repo checkout -- .
   v=$(grep -c '^VIOLATION' /tmp/sr_$n.log)
   echo "$n ($prop) rc=$rc violations=$v $(( $(date +%s)-s ))s $(grep '^VIOLATION' /tmp/sr_$n.log | head -2 | sed 's/.*replays\/[^\/]*\///' | tr '\n' ' ' | cut -c1-120)"
